@@ -139,7 +139,8 @@ _CHUNK_SUITE = dict(suite='chunk', n=dict(quick=4000, thorough=8000), shards=dic
 
 PROPS['C11'] = dict(
     lean_modules=['FluentVerif.Props.C11'],
-    theorems=['FV.C11_agree', 'FV.C11_legacy_witness', 'FV.getChunkKeys_agrees'],
+    theorems=['FV.C11_agree', 'FV.C11_ext32_witness', 'FV.C11_legacy_witness', 'FV.getChunkKeys_agrees', 'FV.hasExt32_arr', 'FV.hasExt32_map',
+              'FV.ext32F_fuel', 'FV.skipP_eq_skip'],
     suites=[_CHUNK_SUITE],
     rule="chunk suite: (v) library encodings of the four modes with and without an assigned chunk, (a) messages of the four "
          "modes with 2/3/4 elements built by the independent encoder: timestamps in every signed/unsigned width, fixext8 and "
@@ -147,13 +148,17 @@ PROPS['C11'] = dict(
          "known and unknown keys of any value type, records and entries with nested data and decoy chunk keys, options "
          "absent / nil, (m) mutations. distinct = distinct (op,args); non-trivial = the input is a well-formed mode message "
          "(judged by the specification parser) or was produced by the library",
-    explanation="C11_agree: for every byte string the specification parser reads as a well-formed message of any of the four "
-                "modes (any legal encoding of any field, arbitrary record content), getChunk returns exactly the chunk of the "
-                "option map and errs exactly when there is none. Correspondence: protocol.GetChunk and RawMessage.Chunk of "
+    explanation="C11_agree (partial: hypothesis hasExt32 b = false): for every byte string the specification parser reads as a "
+                "well-formed message of any of the four modes (any legal encoding of any field, arbitrary record content) that has "
+                "no token in the ext32 format, getChunk returns exactly the chunk of the option map and errs exactly when there is "
+                "none. C11_ext32_witness: the hypothesis cannot be dropped — a well-formed Message with an ext32 EventTime and "
+                "options {chunk: abc} on which getChunk errs (the model has msgp's stream-Skip failure on ext32: Msgp/Ext32.lean); "
+                "the same bytes are replayed on the real GetChunk (corpus): open known finding C11-ext32-skip. Correspondence: protocol.GetChunk and RawMessage.Chunk of "
                 "the working tree equal the model on every line; the oracle compares them with Spec.chunkOf.",
     assumptions=_CODEC_ASSUME + ["well-formed = non-empty string option keys, no key twice (GetChunk returns the first, full decoding the last)",
-                                 "extension objects nested in records/unknown options are generated in fixext/ext8 form: msgp's stream Skip "
-                                 "rejects ext32 when five or more bytes are buffered (dependency quirk, outside the repository)"],
+                                 "msgp's stream Skip fails on ext32 values whenever five or more bytes are buffered: modelled as 'the skipped "
+                                 "value holds an ext32 token' (hasExt32), exact while the message sits in the reader's 4 KiB buffer; inputs "
+                                 "above 4000 bytes that contain an ext32 token are not compared with the model"],
 )
 
 PROPS['C10'] = dict(
